@@ -74,6 +74,8 @@ func Catalogue(which string) []pairSpec {
 	normal := []pairSpec{
 		{a: "a", b: "ab"}, {a: "ab", b: "a"},
 		{a: "u1", b: "u10"}, {a: "u10", b: "u1"},
+		// ids that are file-name patterns matching the other user's id
+		{a: "t?m", b: "tom"}, {a: "tom", b: "t*"}, {a: "*", b: "alice"}, {a: "[a-z]om", b: "tom"},
 		{a: "abc", b: "abcdef"}, {a: "abcxyz", b: "abc"},
 		{a: "a.b", b: "a"}, {a: "a", b: "a."},
 		{a: "a-b", b: "a-"}, {a: "a_", b: "a_b"},
